@@ -1,14 +1,33 @@
 package simcore
 
+import (
+	"os"
+	"strconv"
+	"time"
+)
+
 // Shrink minimises (cfg, steps) while the same violation code persists:
 // delete step chunks (halving), delete single steps, zero step arguments,
-// lower configuration draws. Deterministic; bounded by spec.ShrinkBudget.
+// lower configuration draws. Deterministic; bounded by spec.ShrinkBudget
+// executions and - for engines whose failing executions are slow, e.g. because
+// each one waits out a real-time grace period for an event that never comes -
+// by a wall-clock limit per violation (VERIF_SHRINK_WALL seconds, default 240).
+// The limit only decides how far minimisation gets; whatever it has reached
+// by then is a schedule that reproduces the violation.
 func Shrink(spec Spec, cfg []int, steps []Step, seed uint64, tier string,
 	v Violation, trace []string) ([]int, []Step, Violation, []string, int) {
 
 	execs := 0
 	budget := spec.ShrinkBudget
+	wall := 240 * time.Second
+	if n, err := strconv.Atoi(os.Getenv("VERIF_SHRINK_WALL")); err == nil && n > 0 {
+		wall = time.Duration(n) * time.Second
+	}
+	deadline := time.Now().Add(wall)
 	try := func(c []int, s []Step) (bool, Violation, []string) {
+		if execs < budget && time.Now().After(deadline) {
+			budget = execs
+		}
 		if execs >= budget {
 			return false, Violation{}, nil
 		}
